@@ -27,7 +27,11 @@ CHUNKS = {"none": None, "bytes0": [0], "bytes5": [5], "iter23": [2, 3], "iter050
 def valid(s):
     if s["cl"] and s["te"]:
         return False
-    if s["bad"] != "none" and s["proto"] != "h11":
+    if s["bad"] in ("method", "hname", "hvalue", "target") and s["proto"] != "h11":
+        return False
+    if s["bad"] in ("h2te", "h2path") and s["proto"] != "h2":
+        return False
+    if s["bad"] == "h2path" and s["target"] != "ext":
         return False
     if s["te"] and not s["content"].startswith("iter"):
         return False
@@ -47,7 +51,7 @@ def all_shapes():
         cl=[False, True],
         te=[False, True],
         content=list(CHUNKS),
-        bad=["none", "method", "hname", "hvalue", "target"],
+        bad=["none", "method", "hname", "hvalue", "target", "h2te", "h2path"],
         proto=["h11", "h2"],
     )
     keys = list(dims)
@@ -94,6 +98,11 @@ def build_args(s):
         headers.append((b"X-Bad", b"a\nb"))
     elif s["bad"] == "target":
         ext["target"] = b"/a b"
+    elif s["bad"] == "h2te":
+        headers.append((b"X-Fresh-%d" % len(headers), b"v"))  # (a field the encoder has not indexed yet comes first)
+        headers.append((b"TE", b"gzip"))
+    elif s["bad"] == "h2path":
+        ext["target"] = b""
     if s["content"] == "none":
         content = None
     elif s["content"].startswith("bytes"):
@@ -108,7 +117,7 @@ def build_args(s):
     return method, url, headers, content, ext
 
 
-def transmit_sync(s, times=2, seq=None):
+def transmit_sync(s, times=2, seq=None, share=True):
     """seq: a history of shapes with the same given header list: the caller passes the SAME list
     object (and the same extensions dict) with every request."""
     peers = []
@@ -130,9 +139,10 @@ def transmit_sync(s, times=2, seq=None):
     obs = []
     for k in range(times):
         method, url, headers, content, ext = build_args(seq[k] if seq else s)
-        if seq:
+        if seq and share:
             headers, ext = shared[2], shared[4]
         before = sum(len(w[0]) for r in net.streams for w in r.written)
+        snap = h2_snapshot(peers)
         o = {}
         try:
             it = iter(content) if isinstance(content, list) else content
@@ -145,14 +155,15 @@ def transmit_sync(s, times=2, seq=None):
         o["written"] = sum(len(w[0]) for r in net.streams for w in r.written) - before
         if o["kind"] == "ok":
             o.update(parsed(seq[k] if seq else s, peers, k))
+        o["att"] = h2_attempts(peers, snap) if s["proto"] == "h2" else []
         obs.append(o)
-        if o["kind"] != "ok":
+        if o["kind"] != "ok" and not (seq and o["kind"] == "LocalProtocolError"):
             break
     o_streams = len(net.streams)
     return obs, o_streams
 
 
-def transmit_async(s, times=2, seq=None):
+def transmit_async(s, times=2, seq=None, share=True):
     from .simnet import AsyncSimBackend
     from .vloop import VLoop
 
@@ -184,9 +195,10 @@ def transmit_async(s, times=2, seq=None):
     async def main():
         for k in range(times):
             method, url, headers, content, ext = build_args(seq[k] if seq else s)
-            if seq:
+            if seq and share:
                 headers, ext = shared[2], shared[4]
             before = sum(len(w[0]) for r in net.streams for w in r.written)
+            snap = h2_snapshot(peers)
             o = {}
             try:
                 it = aiter(content) if isinstance(content, list) else content
@@ -197,8 +209,9 @@ def transmit_async(s, times=2, seq=None):
             o["written"] = sum(len(w[0]) for r in net.streams for w in r.written) - before
             if o["kind"] == "ok":
                 o.update(parsed(seq[k] if seq else s, peers, k))
+            o["att"] = h2_attempts(peers, snap) if s["proto"] == "h2" else []
             obs.append(o)
-            if o["kind"] != "ok":
+            if o["kind"] != "ok" and not (seq and o["kind"] == "LocalProtocolError"):
                 break
 
     t = loop.create_task(main())
@@ -220,6 +233,33 @@ def transmit_async(s, times=2, seq=None):
             pass
     loop.shutdown()
     return obs, len(net.streams)
+
+
+def h2_snapshot(peers):
+    """The HEADERS frames seen so far, per connection (what the independent decoder has read)."""
+    return [set(getattr(p, "dec", None).headers) if getattr(p, "dec", None) is not None else set() for p in peers]
+
+
+def h2_attempts(peers, snap):
+    """Every transmission attempt made since the snapshot: one record per NEW stream on any connection
+    (old or new), as decoded by the independent reader - stream ids themselves are not judged."""
+    out = []
+    for i, p in enumerate(peers):
+        dec = getattr(p, "dec", None)
+        if dec is None:
+            continue
+        old = snap[i] if i < len(snap) else set()
+        for sid in sorted(set(dec.headers) - old):
+            frames = [f for f in dec.frames if f[1] == sid]
+            out.append(
+                {
+                    "headers": [[a.decode("latin1"), b.decode("latin1")] for a, b in dec.headers.get(sid, [])],
+                    "body": list(dec.data.get(sid, b"")),
+                    "endOnHeaders": any(f[0] == "HEADERS" and "END_STREAM" in f[2] for f in frames),
+                    "ended": sid in dec.ended,
+                }
+            )
+    return out
 
 
 def parsed(s, peers, k):
@@ -292,6 +332,7 @@ def run_into(chk, prop, tier):
             o.setdefault("body", [])
             o.setdefault("endOnHeaders", False)
             o.setdefault("ended", False)
+            o.setdefault("att", [])
         traces.append({"shape": s, "obs": obs})
         metas.append({"mode": mode, "streams": nstreams})
     # histories in which the caller re-uses its header-list object (and extensions dict) for requests
@@ -315,11 +356,41 @@ def run_into(chk, prop, tier):
         obs, nstreams = (transmit_sync if mode == "sync" else transmit_async)(None, seq=seq)
         evals += len(obs)
         for o in obs:
-            for k_, d_ in (("method", ""), ("target", ""), ("headers", []), ("body", []), ("endOnHeaders", False), ("ended", False)):
+            for k_, d_ in (("method", ""), ("target", ""), ("headers", []), ("body", []), ("endOnHeaders", False), ("ended", False), ("att", [])):
                 o.setdefault(k_, d_)
         traces.append({"shape": seq[0], "shapes": seq, "obs": obs})
         metas.append({"mode": mode, "streams": nstreams, "history": "shared header list object"})
     chk.coverage["shared_argument_histories"] = len(hist)
+    # histories on ONE HTTP/2 connection in which a request with a head HTTP/2 cannot encode comes between
+    # legal ones: it is rejected, nothing of it is written - and what is written for the NEXT request still
+    # decodes to that request (the header compression state is shared by all requests of a connection)
+    rej = []
+    for s in all_shapes():
+        if s["proto"] != "h2" or s["bad"] != "none" or s["cl"] or s["te"] or s["content"] not in ("none", "bytes5") or s["target"] not in ("path", "ext"):
+            continue
+        if s["method"] == "M-X":
+            continue
+        for bad in ("h2te", "h2path"):
+            b = dict(s, bad=bad)
+            if not valid(b):
+                continue
+            other = dict(s, hl={"none": "one", "one": "three", "dupcase": "one", "three": "dupcase"}[s["hl"]])
+            rej.append([s, b, s])
+            rej.append([s, other, b, other, s])
+            rej.append([b, s])
+    if tier == "quick":
+        rng.shuffle(rej)
+        rej = rej[:150]
+    for idx, seq in enumerate(rej):
+        mode = "sync" if (idx % 2) else "async"
+        obs, nstreams = (transmit_sync if mode == "sync" else transmit_async)(None, seq=seq, share=False)
+        evals += len(obs)
+        for o in obs:
+            for k_, d_ in (("method", ""), ("target", ""), ("headers", []), ("body", []), ("endOnHeaders", False), ("ended", False), ("att", [])):
+                o.setdefault(k_, d_)
+        traces.append({"shape": seq[0], "shapes": seq, "obs": obs})
+        metas.append({"mode": mode, "streams": nstreams, "history": "a rejected head between legal requests on one HTTP/2 connection"})
+    chk.coverage["rejected_head_histories"] = len(rej)
     verdicts, stats = validate(traces)
     rejected = [(t, m, v) for t, m, v in zip(traces, metas, verdicts) if v[0] != "ACCEPT"]
     accepted = [t for t, v in zip(traces, verdicts) if v[0] == "ACCEPT"]
@@ -331,7 +402,7 @@ def run_into(chk, prop, tier):
     i = next(j for j, h in enumerate(hs) if h[0] == "B")
     k = next(j for j, h in enumerate(hs) if h[0] == "C")
     hs[i], hs[k] = hs[k], hs[i]
-    c3 = copy.deepcopy(next(t for t in accepted if t["obs"][0]["kind"] == "LocalProtocolError"))
+    c3 = copy.deepcopy(next(t for t in accepted if t["obs"][0]["kind"] == "LocalProtocolError" and t["shape"]["proto"] == "h11"))
     c3["obs"][0]["written"] = 17
     cres, _ = validate([c1, c2, c3])
     can = {}
